@@ -23,6 +23,17 @@ Families
                     orders, creation and use interleaved or not; each module must be bound to ITS derivative and
                     price()/delta() with all arguments omitted must equal the functional form / an unbound module at
                     that derivative's state (bitwise) and the expectation oracle.
+  flag_table        every (derivative kind, call flag): the module built from the derivative carries the derivative's
+                    flag and prices that flag, or construction raises ValueError for the documented unsupported
+                    lookback put / American binary put; a silently accepted put is a violation.
+  resim_history     one underlier shared by four derivatives, each wrapped by BlackScholes(d); ALL histories of 3 (thorough
+                    4) re-simulation rounds over 5 routes (simulate() of each of three derivatives, the stock's
+                    simulate(), re-registered buffers; same shape, new content): after every round price()/delta()
+                    with arguments omitted must be the functional form / an unbound module at the CURRENT buffers
+                    (bitwise) and the expectation oracle given the current state.
+  (derivative_forms also runs on options struck at the money at inception with non-dyadic strikes 0.9, 1.03, 1.05, 1.3
+   - every path starts exactly at the strike - and derives the state for the oracle from the buffer values in exact
+   arithmetic: barrier reached <=> running max >= strike.)
   law_crosscheck    model level, no pfhedge: the two routes to the running-maximum law (Girsanov
                     quadrature over driftless Brownian motion vs textbook closed survival function), the
                     layer-cake vs density form of the lookback expectation, the homogeneity reduction
@@ -367,10 +378,12 @@ def derivative_forms(ctx, block):
     dtype = DT[block["dtype"]]
     eps = torch.finfo(dtype).eps
     K, call, sigma, dt, T = block["strike"], block["call"], block["sigma"], block["dt"], block["T"]
-    spot = all_paths(block["A"], T, dtype=dtype)
+    spot = all_paths(block["A"], T, dtype=dtype, first=block.get("first"))
     if block.get("rows") is not None:
         spot = spot[block["rows"]]
     N = spot.size(0)
+    if float(torch.tensor(K, dtype=dtype)) != K:
+        raise HarnessError(f"strike {K} is not representable in {block['dtype']} (needed for 'spot == strike exactly')")
     stock = market.primary("brownian", dtype=dtype, sigma=sigma, dt=dt)
     market.set_buffers(stock, spot=spot)
     kw = {"strike": K}
@@ -437,38 +450,210 @@ def derivative_forms(ctx, block):
     out = mods["BlackScholes"].price()
     if tuple(out.shape) != (N, T):
         return
-    memo = {}
-    cells = {}
-    lml, mll, ttl, outl = lm.to(torch.float64).tolist(), mlm.to(torch.float64).tolist(), ttm.to(torch.float64).tolist(), out.to(torch.float64).tolist()
-    v_exact = float(vol[0, 0].to(torch.float64))
-    for r in range(N):
-        for c in range(T - 1):
-            key = (lml[r][c], mll[r][c] if HAS_MAX[product] else None, ttl[r][c])
-            cells.setdefault(key, []).append((r, c))
-    for (s, m, t), where in cells.items():
-        exp1 = unit_expectation(product, s, m, t, v_exact, call, memo)
-        homog = K if product in ("european", "lookback") else 1
-        exp = exp1 * homog
-        mm = s if m is None else m
-        tol = C_TOL * eps * scale_of(product, s, mm, t, v_exact, K)
-        ctx.add("distinct_oracle_cells")
-        for (r, c) in where:
-            g = outl[r][c]
-            ctx.tick(1, nontrivial=1)
-            if not ((g == g) and abs(mp.mpf(g) - exp) <= tol):
-                mb = dict(block)
-                base = block.get("rows")
-                mb["rows"] = [base[r] if base is not None else r]
-                ctx.violation(site, ("nan_" if g != g else "expectation_") + classify(product, s, mm, K, call),
-                              f"BlackScholes({type(deriv).__name__}(strike={K}, call={call})).price() on path "
-                              f"{spot[r].tolist()} step {c} (sigma {sigma}, t {t}) != E[payoff]",
-                              observed=g, expected=float(exp), block=mb, family="derivative_forms")
-                break
+    def mini(r):
+        mb = dict(block)
+        base = block.get("rows")
+        mb["rows"] = [base[r] if base is not None else r]
+        return mb
+
+    oracle_cells_exact(ctx, product, spot, K, ttm, vol, out, call, dtype, site, "",
+                       lambda r, c: f"BlackScholes({type(deriv).__name__}(strike={K}, call={call})).price() on path "
+                                    f"{spot[r].tolist()} step {c} (sigma {sigma}) != E[payoff | the derivative's state]",
+                       mini, "derivative_forms")
     ctx.outcome((product, K, call, round(float(out[:, live].sum()), 6)))
     if len(ctx.samples) < 4:
         r = N // 2
         ctx.sample({"family": "derivative_forms", "product": product, "strike": K, "call": call, "sigma": sigma,
                     "dt": dt, "path": spot[r].tolist(), "price()": out[r].tolist()})
+
+
+def exact_state(spot, K):
+    """Per cell of the spot buffer, in exact arithmetic on the buffer values: log-moneyness s = log(S/K), running-max
+    log-moneyness m = log(max_{k<=c} S_k / K) (30-digit logarithm of the exact ratio, rounded to a double; m == 0.0
+    exactly iff the running maximum EQUALS the strike, m >= 0 iff the barrier has been reached)."""
+    Kq = mp.mpf(K)
+    S, M = [], []
+    for row in spot.to(torch.float64).tolist():
+        mx = None
+        srow, mrow = [], []
+        for x in row:
+            mx = x if mx is None else max(mx, x)
+            srow.append(0.0 if x == K else float(mp.log(mp.mpf(x) / Kq)))
+            mrow.append(0.0 if mx == K else float(mp.log(mp.mpf(mx) / Kq)))
+        S.append(srow)
+        M.append(mrow)
+    return S, M
+
+
+def oracle_cells_exact(ctx, product, spot, K, ttm, vol, out, call, dtype, site, cls_prefix, msg, mini_for_row,
+                       family_name, memo=None):
+    """``out`` (N, T) against the expectation oracle given the derivative's state, the state being derived from the
+    spot buffer in exact arithmetic (not through torch's log / cummax): every distinct (s, m, t, v) cell, t > 0.
+    The implementation's own rounding of s (1 ulp of the dtype, |s| <= ~1.5) moves the price by less than
+    eps * scale and is covered by the tolerance C_TOL * eps * scale."""
+    eps = torch.finfo(dtype).eps
+    N, T = out.shape
+    S, M = exact_state(spot, K)
+    TT, VV, O = ttm.to(torch.float64).tolist(), vol.to(torch.float64).tolist(), out.to(torch.float64).tolist()
+    memo = {} if memo is None else memo
+    cells = {}
+    for r in range(N):
+        for c in range(T):
+            if not TT[r][c] > 0:
+                continue
+            key = (S[r][c], M[r][c] if HAS_MAX[product] else None, TT[r][c], VV[r][c])
+            cells.setdefault(key, []).append((r, c))
+    for (s_, m_, t_, v_), where in cells.items():
+        exp = unit_expectation(product, s_, m_, t_, v_, call, memo) * (K if product in ("european", "lookback") else 1)
+        mm = s_ if m_ is None else m_
+        tol = C_TOL * eps * scale_of(product, s_, mm, t_, v_, K)
+        ctx.add("distinct_oracle_cells")
+        for (r, c) in where:
+            g = O[r][c]
+            ctx.tick(1, nontrivial=1)
+            if not ((g == g) and abs(mp.mpf(g) - exp) <= tol):
+                ctx.violation(site, cls_prefix + ("nan_" if g != g else "expectation_") + classify(product, s_, mm, K, call),
+                              msg(r, c), observed=g, expected=float(exp), block=mini_for_row(r), family=family_name)
+                break
+
+
+UNSUPPORTED = {("lookback", False), ("american_binary", False)}     # documented: constructor raises ValueError
+
+
+@family
+def flag_table(ctx, block):
+    """For every (derivative kind, call flag): the module built from the derivative either carries the derivative's
+    flag (and prices that flag: bitwise the functional form with it), or - for the documented unsupported
+    combinations lookback put / American binary put - construction raises ValueError.  A put silently wrapped by
+    a call-formula module is a violation.  block: dtype, strike."""
+    import pfhedge.nn as nn
+    dtype = DT[block["dtype"]]
+    K = block["strike"]
+    world = {"under": "brownian", "A": [0.75, 1.0, 1.5], "T": 3, "dt": 0.25, "sigma": 0.25}
+    for product in block.get("products", PRODUCTS):
+        for call in block.get("calls", [True, False]):
+            T = world["T"]
+            spot = all_paths(world["A"], T, dtype=dtype)
+            stock = market.primary("brownian", dtype=dtype, sigma=world["sigma"], dt=world["dt"])
+            market.set_buffers(stock, spot=spot)
+            deriv = market.derivative(KIND[product], stock, T=T, strike=K, call=call)
+            site = f"BlackScholes({type(deriv).__name__})"
+            mb = dict(block, products=[product], calls=[call])
+            builders = {"BlackScholes": lambda: nn.BlackScholes(deriv),
+                        "from_derivative": lambda: getattr(nn, MODULE[product]).from_derivative(deriv)}
+            for label, build in builders.items():
+                ctx.tick(1, nontrivial=1)
+                try:
+                    mod = build()
+                except ValueError as e:
+                    ctx.outcome((product, call, "ValueError"))
+                    if (product, call) not in UNSUPPORTED:
+                        ctx.violation(site, "supported_flag_rejected", f"{label}({type(deriv).__name__}(call={call})) raised {e}",
+                                      observed=repr(e), expected="a module", block=mb, family="flag_table")
+                    continue
+                ctx.outcome((product, call, "module"))
+                if (product, call) in UNSUPPORTED:
+                    ctx.violation(site, "unsupported_put_silently_accepted",
+                                  f"{label}({type(deriv).__name__}(call=False)) returned {type(mod).__name__}(call={getattr(mod, 'call', None)}) "
+                                  f"instead of raising ValueError: the put would be priced with the call formula",
+                                  observed=f"{type(mod).__name__}(call={getattr(mod, 'call', None)})", expected="ValueError", block=mb, family="flag_table")
+                    continue
+                if bool(mod.call) != bool(call):
+                    ctx.violation(site, "call_flag_not_taken_over", f"{label}: module.call={mod.call}, derivative.call={call}",
+                                  observed=bool(mod.call), expected=bool(call), block=mb, family="flag_table")
+                lm = (spot / K).log()
+                f = {"log_moneyness": lm, "max_log_moneyness": lm.cummax(-1).values,
+                     "time_to_maturity": deriv.time_to_maturity(), "volatility": torch.full_like(spot, world["sigma"])}
+                ref = functional_at(product, f, K, call)
+                out = mod.price()
+                ctx.tick(spot.numel(), nontrivial=spot.numel())
+                if not _bitwise_equal(out[:, :T - 1], ref[:, :T - 1]):
+                    ctx.violation(site, "price_not_for_the_derivatives_flag_" + ("call" if call else "put"),
+                                  f"{label}({type(deriv).__name__}(call={call})).price() != {SITE[product]}(call={call})",
+                                  observed=float(out[0, 0]), expected=float(ref[0, 0]), block=mb, family="flag_table")
+
+
+ROUTES = ("sim_via_lookback", "sim_via_american_binary", "sim_via_european", "stock_simulate", "set_buffers")
+
+
+@family
+def resim_history(ctx, block):
+    """One underlier shared by a lookback, an American binary, a European call and a European binary put, each wrapped by
+    BlackScholes(d).  Round 0 registers a path set; every later round brings NEW paths of the same shape by one of the
+    routes (another derivative's simulate(), the stock's simulate(), re-registered buffers); after every round each
+    module's price() and delta() with all arguments omitted must equal the functional form / an unbound module at
+    features computed from the CURRENT buffers (bitwise), and the expectation oracle given the current state.
+    block: A, T, dt, sigma, strike, dtype, histories [[route, ...], ...], oracle (bool)."""
+    import pfhedge.nn as nn
+    dtype = DT[block["dtype"]]
+    K, T, dt, sigma = block["strike"], block["T"], block["dt"], block["sigma"]
+    base = all_paths(block["A"], T, dtype=dtype)
+    N = base.size(0)
+    contents = [base, base.flip(0), base.roll(5, 0).flip(-1), base.flip(-1), base.roll(11, 0)]
+    kinds = [("lookback", True), ("american_binary", True), ("european", True), ("european_binary", False)]
+    memo = {}
+    for hist in block["histories"]:
+        stock = market.primary("brownian", dtype=dtype, sigma=sigma, dt=dt)
+        holder = {"next": None}
+        market.ScriptedSimulate(stock, [lambda n, th, init: {"spot": holder["next"]}])
+        market.set_buffers(stock, spot=contents[0])
+        derivs = {p: market.derivative(KIND[p], stock, T=T, strike=K, call=c) for (p, c) in kinds}
+        mods = {p: nn.BlackScholes(derivs[p]) for (p, _) in kinds}
+        ctx.add("traces_validated_against_impl")
+
+        def check_round(rnd):
+            spot = stock.spot
+            lm = (spot / K).log()
+            steps = torch.arange(T).to(spot) * dt
+            f = {"log_moneyness": lm, "max_log_moneyness": lm.cummax(dim=-1).values,
+                 "time_to_maturity": (steps[-1] - steps).unsqueeze(0).expand(N, -1), "volatility": torch.full_like(spot, sigma)}
+            live = slice(0, T - 1)
+            for (p, c) in kinds:
+                site = f"BlackScholes({type(derivs[p]).__name__})"
+                route = "initial" if rnd == 0 else hist[rnd - 1]
+                mb = dict(block, histories=[hist[:rnd]])
+                ref = functional_at(p, f, K, c)
+                out = mods[p].price()
+                ctx.tick(N * (T - 1), nontrivial=N * (T - 1) if rnd else 0)
+                ctx.add("transitions")
+                if tuple(out.shape) != (N, T) or not _bitwise_equal(out[:, live], ref[:, live]):
+                    j = _first_diff(out[:, live], ref[:, live]) if tuple(out.shape) == (N, T) else 0
+                    r, cc = divmod(j, T - 1)
+                    ctx.violation(site, f"stale_state_after_{route}_price",
+                                  f"price() with arguments omitted after history {hist[:rnd]} does not use the CURRENT buffers: "
+                                  f"path {spot[r].tolist()} step {cc}, strike {K}",
+                                  observed=float(out[:, live].flatten()[j]) if tuple(out.shape) == (N, T) else list(out.shape),
+                                  expected=float(ref[:, live].flatten()[j]), block=mb, family="resim_history")
+                elif block.get("oracle") and block["dtype"] == "float64":
+                    oracle_cells_exact(ctx, p, spot, K, f["time_to_maturity"], f["volatility"], out, c, dtype, site,
+                                       f"after_{route}_",
+                                       lambda r, cc: f"price() after history {hist[:rnd]} on path {spot[r].tolist()} step {cc} != E[payoff | current state]",
+                                       lambda r: mb, "resim_history", memo=memo)
+                if HAS_MAX[p]:
+                    names = arg_names(p)
+                    ref_d = make_module(p, K, c).delta(*[f[a] for a in names])
+                    out_d = mods[p].delta()
+                    ctx.tick(N * (T - 1), nontrivial=N * (T - 1) if rnd else 0)
+                    if tuple(out_d.shape) != tuple(ref_d.shape) or not _bitwise_equal(out_d[:, live], ref_d[:, live]):
+                        ctx.violation(site, f"stale_state_after_{route}_delta",
+                                      f"delta() with arguments omitted after history {hist[:rnd]} does not use the CURRENT buffers",
+                                      observed=float(out_d[:, live].flatten()[0]), expected=float(ref_d[:, live].flatten()[0]),
+                                      block=mb, family="resim_history")
+
+        check_round(0)
+        for rnd, route in enumerate(hist, start=1):
+            holder["next"] = contents[rnd % len(contents)]
+            if route == "set_buffers":
+                market.set_buffers(stock, spot=holder["next"])
+            elif route == "stock_simulate":
+                stock.simulate(n_paths=N, time_horizon=(T - 1) * dt)
+            else:
+                derivs[route[len("sim_via_"):]].simulate(n_paths=N)
+            if not torch.equal(stock.spot, holder["next"]):
+                raise HarnessError(f"route {route} did not install the scripted paths")
+            check_round(rnd)
+        ctx.add("states", len(hist) + 1)
+    ctx.outcome(("resim", tuple(map(tuple, block["histories"][:2])), block["dtype"]))
 
 
 # ----------------------------------------------------------------------------
@@ -933,7 +1118,36 @@ def run(ctx):
                     dblocks.append({"product": product, "A": A, "T": T, "dt": dt_, "sigma": f32(sigma), "strike": K,
                                     "call": call, "dtype": dname})
     ctx.alphabet("derivative_forms (A, T, dt, sigma, strike)", configs)
-    jobs += [(30, "derivative_forms", b) for b in dblocks]
+    # options struck at the money at inception with a non-dyadic strike: every path starts AT the strike
+    # (spot == strike exactly in the dtype), so the barrier has been reached on every path from step 0 on
+    atm = []
+    for k0 in (0.9, 1.03, 1.05, 1.3):
+        for dname in ("float64", "float32"):
+            Kx = k0 if dname == "float64" else f32(k0)
+            for product in PRODUCTS:
+                if ctx.quick and not HAS_MAX[product] and k0 != 1.05:
+                    continue
+                for call in ([True, False] if HAS_PUT[product] else [True]):
+                    atm.append({"product": product, "A": [Kx, 0.75, 1.5], "first": Kx, "T": 3, "dt": 0.25, "sigma": f32(0.3),
+                                "strike": Kx, "call": call, "dtype": dname})
+    ctx.alphabet("at-the-money-at-inception strikes", [0.9, 1.03, 1.05, 1.3, "and their float32 roundings"])
+    jobs += [(30, "derivative_forms", b) for b in dblocks + atm]
+    jobs += [(5, "flag_table", {"dtype": dname, "strike": K}) for dname in ("float64", "float32") for K in (1.0, 1.25)]
+    # ---- re-simulation histories on a shared underlier ----
+    ctx.alphabet("re-simulation routes", list(ROUTES))
+    depth = 3
+    hists = [list(h) for h in itertools.product(ROUTES, repeat=depth)]
+    rw = {"A": [0.75, 1.0, 1.5], "T": 3, "dt": 0.25, "sigma": 0.25, "strike": 1.25}
+    for r0 in ROUTES:
+        jobs.append((45, "resim_history", dict(rw, dtype="float64", histories=[h for h in hists if h[0] == r0])))
+    jobs.append((45, "resim_history", dict(rw, dtype="float32", histories=[list(h) for h in itertools.product(ROUTES, repeat=2)])))
+    jobs.append((45, "resim_history", dict(rw, dtype="float64", oracle=True,
+                                           histories=[["stock_simulate", "sim_via_european", "set_buffers"],
+                                                      ["sim_via_american_binary", "sim_via_lookback", "stock_simulate"]])))
+    if ctx.thorough:
+        rw2 = {"A": [1.0, 1.5, 0.5, 2.0], "T": 4, "dt": 0.125, "sigma": 0.5, "strike": 1.5}
+        for r0 in ROUTES:
+            jobs.append((90, "resim_history", dict(rw2, dtype="float64", histories=[list(h) for h in itertools.product(ROUTES, repeat=4) if h[0] == r0])))
 
     # ---- scenario arguments (some arguments supplied, the rest read from the derivative) ----
     W1 = {"under": "brownian", "A": [0.75, 1.0, 1.5], "T": 3, "dt": 0.25, "sigma": 0.25}
